@@ -22,6 +22,8 @@ spec = {
   #                                                  (AugAssign x op= e gives x op e)
   #   {"test_enclosing": "<target text>", "nth": k, "up": u}  test of the innermost `if`/`while`
   #                                                  around it (u levels further out)
+  #   {"test": "If" | "While", "nth": k}             test of the k-th if / while statement
+  #   {"test_on": "<name>", "nth": k}                test of the if / while whose test mentions the name
   #   {"arg_of": "<callee text>", "nth": k, "index": j}  j-th argument of the k-th call
   #   (without "nth" the match must be unique)
   "select": {...},
@@ -168,6 +170,29 @@ def conj(conds):
 
 
 PACK = {"<H": 2, "<I": 4, "<L": 4, "<Q": 8, "B": 1, "<B": 1}
+FIELD = {"B": 1, "H": 2, "I": 4, "L": 4, "Q": 8}
+
+
+def parse_fmt(fmt):
+    """struct format of unsigned fields -> ('le' | 'be', [sizes]) or None.  '<' little endian, '>' / '!'
+    big endian (no padding); without a prefix (native order AND alignment) only one field, or only
+    bytes, is accepted and the host is assumed little endian (recorded in design/PYTRANS.md)."""
+    if not isinstance(fmt, str) or not fmt:
+        return None
+    order, body = "le", fmt
+    if fmt[0] in "<>!=":
+        if fmt[0] == "=":
+            return None
+        order, body = ("le" if fmt[0] == "<" else "be"), fmt[1:]
+        native = False
+    else:
+        native = True
+    if not body or any(ch not in FIELD for ch in body):
+        return None
+    sizes = [FIELD[ch] for ch in body]
+    if native and len(sizes) > 1 and any(n != 1 for n in sizes):
+        return None
+    return order, sizes
 
 
 # ---------------------------------------------------------------------------
@@ -302,9 +327,9 @@ class Tr:
                 return V("(%s - %s)%s" % (x, y, sc), t, conds + ["(%s <= %s)%s" % (y, x, sc)])
             fn = {"FloorDiv": "py_floordiv", "Mod": "py_mod"}[op] + ("_N" if t == "N" else "")
             return V("(%s %s %s)" % (fn, x, y), t, conds + ["(0 < %s)%s" % (y, sc)])
-        if op in ("BitAnd", "BitOr", "RShift", "LShift"):
+        if op in ("BitAnd", "BitOr", "BitXor", "RShift", "LShift"):
             x, y, t = self.int2(a, b, e, force="N")
-            fn = {"BitAnd": "N.land", "BitOr": "N.lor", "RShift": "N.shiftr", "LShift": "N.shiftl"}[op]
+            fn = {"BitAnd": "N.land", "BitOr": "N.lor", "BitXor": "N.lxor", "RShift": "N.shiftr", "LShift": "N.shiftl"}[op]
             return V("(%s %s %s)" % (fn, x, y), "N", conds)
         _bad(e, "operator outside the grammar")
 
@@ -430,18 +455,10 @@ class Tr:
         return V("(py_range_map (fun %s : nat => %s) %s)" % (iname, body.text, n.text), ("list", body.ty), conds)
 
     def e_Subscript(self, e, env):
-        # unpack(fmt, b)[0]
+        # unpack(fmt, b)[k]
         if (isinstance(e.value, ast.Call) and self.callee(e.value) in ("unpack", "struct.unpack")
-                and isinstance(e.slice, ast.Constant) and e.slice.value == 0):
-            c = e.value
-            self.used.add(self.callee(c))
-            if len(c.args) != 2 or c.keywords or not isinstance(c.args[0], ast.Constant) or c.args[0].value not in PACK:
-                _bad(e, "unpack format outside the grammar")
-            b = self.expr(c.args[1], env)
-            if resolve(b.ty) != "bytes":
-                _bad(e, "unpack of a non-bytes value")
-            return V("(py_unpack_le %s)" % b.text, "N",
-                     b.conds + ["(py_len %s = %d)%%nat" % (b.text, PACK[c.args[0].value])])
+                and isinstance(e.slice, ast.Constant) and isinstance(e.slice.value, int) and not isinstance(e.slice.value, bool)):
+            return self.unpack(e.value, env, e.slice.value)
         v = self.expr(e.value, env)
         t = resolve(v.ty)
         if not (t == "bytes" or (isinstance(t, tuple) and t[0] == "list")):
@@ -449,6 +466,19 @@ class Tr:
         if isinstance(e.slice, ast.Slice):
             if e.slice.step is not None:
                 _bad(e, "slice step")
+            def neg(b):
+                return isinstance(b, ast.UnaryOp) and isinstance(b.op, ast.USub)
+            if neg(e.slice.lower) or neg(e.slice.upper):
+                # x[:-m] and x[-m:] (m a non-negative int; note x[:-0] == b"" and x[-0:] == x)
+                if e.slice.lower is None and neg(e.slice.upper):
+                    m, f = self.expr(e.slice.upper.operand, env), "py_slice_to_neg"
+                elif e.slice.upper is None and neg(e.slice.lower):
+                    m, f = self.expr(e.slice.lower.operand, env), "py_slice_from_neg"
+                else:
+                    _bad(e, "negative slice bound outside the grammar")
+                if not is_int(resolve(m.ty)):
+                    _bad(e, "slice bound is not an integer")
+                return V("(%s %s %s)" % (f, coerce(m, "nat", e), v.text), t, v.conds + m.conds)
             lo = self.expr(e.slice.lower, env) if e.slice.lower is not None else None
             hi = self.expr(e.slice.upper, env) if e.slice.upper is not None else None
             conds = v.conds + (lo.conds if lo else []) + (hi.conds if hi else [])
@@ -469,6 +499,32 @@ class Tr:
             _bad(e, "index is not a non-negative integer")
         it = coerce(i, "nat", e)
         return V("(py_index %s %s)" % (it, v.text), "N", v.conds + i.conds + ["(%s < py_len %s)%%nat" % (it, v.text)])
+
+    def unpack(self, c, env, k):
+        """unpack(fmt, b)[k] (k an index) or the whole tuple (k None, at least two fields)."""
+        self.used.add(self.callee(c))
+        pf = parse_fmt(c.args[0].value) if (len(c.args) == 2 and not c.keywords and isinstance(c.args[0], ast.Constant)) else None
+        if pf is None:
+            _bad(c, "unpack format outside the grammar")
+        order, sizes = pf
+        b = self.expr(c.args[1], env)
+        if resolve(b.ty) != "bytes":
+            _bad(c, "unpack of a non-bytes value")
+        conds = b.conds + ["(py_len %s = %d)%%nat" % (b.text, sum(sizes))]
+        def field(j):
+            if len(sizes) == 1:
+                piece = b.text
+            else:
+                off = sum(sizes[:j])
+                piece = "(py_slice %d%%nat %d%%nat %s)" % (off, off + sizes[j], b.text)
+            return "(py_unpack_%s %s)" % (order, piece)
+        if k is not None:
+            if not 0 <= k < len(sizes):
+                _bad(c, "unpack index out of range")
+            return V(field(k), "N", conds)
+        if len(sizes) < 2:
+            _bad(c, "a one-field unpack is only supported as unpack(fmt, b)[0]")
+        return V("(" + ", ".join(field(j) for j in range(len(sizes))) + ")", ("tuple", tuple("N" for _ in sizes)), conds)
 
     @staticmethod
     def callee(c):
@@ -516,16 +572,26 @@ class Tr:
             x, y = self.expr(e.args[0], env), self.expr(e.args[1], env)
             xs, ys, t = self.int2(x, y, e)
             return V("(%s.%s %s %s)" % ("N" if t == "N" else "Nat", fn, xs, ys), t, x.conds + y.conds)
-        if fn in ("pack", "struct.pack") and len(e.args) == 2:
+        if fn in ("pack", "struct.pack") and len(e.args) >= 2:
             f = e.args[0]
-            if not (isinstance(f, ast.Constant) and f.value in PACK):
+            pf = parse_fmt(f.value) if isinstance(f, ast.Constant) else None
+            if pf is None or len(pf[1]) != len(e.args) - 1:
                 _bad(e, "pack format outside the grammar")
-            v = self.expr(e.args[1], env)
-            if not is_int(resolve(v.ty)):
-                _bad(e, "pack of a non-integer")
-            n = PACK[f.value]
-            vt = coerce(v, "N", e)
-            return V("(py_pack_le %d%%nat %s)" % (n, vt), "bytes", v.conds + ["(%s < %d)%%N" % (vt, 256 ** n)])
+            order, sizes = pf
+            parts, conds = [], []
+            for n, a in zip(sizes, e.args[1:]):
+                v = self.expr(a, env)
+                if not is_int(resolve(v.ty)):
+                    _bad(e, "pack of a non-integer")
+                vt = coerce(v, "N", e)
+                parts.append("(py_pack_%s %d%%nat %s)" % (order, n, vt))
+                conds += v.conds + ["(%s < %d)%%N" % (vt, 256 ** n)]
+            text = parts[0]
+            for q in parts[1:]:
+                text = "(%s ++ %s)" % (text, q)
+            return V(text, "bytes", conds)
+        if fn in ("unpack", "struct.unpack") and len(e.args) == 2:
+            return self.unpack(e, env, None)
         _bad(e, "call outside the grammar")
 
     # -- statements ----------------------------------------------------------
@@ -574,6 +640,22 @@ class Tr:
             # `if` duplicates into a returning branch is cut off)
             v = self.settle(self.expr(s.value, env), s)
             return v.text, v.ty, conj(v.conds)
+        if (isinstance(s, ast.Assign) and len(s.targets) == 1 and isinstance(s.targets[0], ast.Tuple)
+                and all(isinstance(x, ast.Name) for x in s.targets[0].elts)):
+            # a, b = <tuple>
+            v = self.expr(s.value, env)
+            t = resolve(v.ty)
+            names = [x.id for x in s.targets[0].elts]
+            if not (isinstance(t, tuple) and t[0] == "tuple" and len(t[1]) == len(names)) or len(set(names)) != len(names):
+                _bad(s, "tuple assignment of a value that is not a tuple of that size")
+            env2, cn = env, []
+            for n, ty in zip(names, t[1]):
+                env2, c1 = self.assign(env2, n, ty, s)
+                cn.append(c1)
+            d, ty, p = self.block(rest, env2, final)
+            pat = "'(" + ", ".join(cn) + ")"
+            pre = conj(v.conds + (["(let %s := %s in %s)" % (pat, v.text, p)] if p != "True" else []))
+            return "let %s := %s in\n%s" % (pat, v.text, d), ty, pre
         if isinstance(s, (ast.Assign, ast.AugAssign)):
             if isinstance(s, ast.Assign):
                 if len(s.targets) != 1 or not isinstance(s.targets[0], ast.Name):
@@ -596,6 +678,24 @@ class Tr:
             if s.orelse or not isinstance(s.target, ast.Name) or len(s.body) != 1:
                 _bad(s, "for loop outside the grammar")
             b = s.body[0]
+            if isinstance(b, ast.AugAssign) and isinstance(b.op, ast.Add) and isinstance(b.target, ast.Name):
+                # for i in range(n): acc += e     (acc a bytes / list value)
+                acc = b.target.id
+                if acc not in env or any(isinstance(n, ast.Name) and n.id == acc for n in ast.walk(b.value)):
+                    _bad(s, "accumulator must be an existing sequence not mentioned in the added expression")
+                aname, aty = env[acc]
+                aty = resolve(aty)
+                if not (aty == "bytes" or (isinstance(aty, tuple) and aty[0] == "list")):
+                    _bad(s, "`acc += e` in a loop is supported for bytes / lists only")
+                n = self.range_arg(s.iter, env)
+                m = self.range_map(s.target.id, b.value, n, env, s)
+                et = resolve(m.ty)[1]
+                t = unify(aty, et, s)
+                env2, cname = self.assign(self.unbind(env, [s.target.id]), acc, t, s)
+                d, ty, p = self.block(rest, env2, final)
+                text = "(%s ++ (py_concat %s))" % (aname, m.text)
+                pre = conj(m.conds + (["(let %s := %s in %s)" % (cname, text, p)] if p != "True" else []))
+                return "let %s := %s in\n%s" % (cname, text, d), ty, pre
             if not (isinstance(b, ast.Expr) and isinstance(b.value, ast.Call) and isinstance(b.value.func, ast.Attribute)
                     and b.value.func.attr == "append" and isinstance(b.value.func.value, ast.Name)
                     and len(b.value.args) == 1 and not b.value.keywords):
@@ -736,6 +836,21 @@ def select_expr(fn, sel):
                 up -= 1
             cur = par
         raise Unsupported("selector %r: no enclosing if" % (sel,))
+    if "test" in sel:
+        # the test of the nth `if` / `while` statement of the function, in source order
+        kind = {"If": ast.If, "While": ast.While}.get(sel["test"])
+        if kind is None:
+            raise Unsupported("selector %r: test of what?" % (sel,))
+        nodes = sorted((n for n in ast.walk(fn) if isinstance(n, kind)), key=lambda n: (n.lineno, n.col_offset))
+        n = _pick(nodes, sel, sel["test"] + " statements")
+        return n.test, n.test
+    if "test_on" in sel:
+        # the test of the `if` / `while` statement(s) whose test mentions the given name
+        nodes = sorted((n for n in ast.walk(fn) if isinstance(n, (ast.If, ast.While))
+                        and any(isinstance(x, ast.Name) and x.id == sel["test_on"] for x in ast.walk(n.test))),
+                       key=lambda n: (n.lineno, n.col_offset))
+        n = _pick(nodes, sel, "tests mentioning " + sel["test_on"])
+        return n.test, n.test
     if "arg_of" in sel:
         calls = [n for n in ast.walk(fn) if isinstance(n, ast.Call) and _unp(n.func) == sel["arg_of"]]
         calls.sort(key=lambda n: (n.lineno, n.col_offset))
@@ -748,14 +863,22 @@ def select_expr(fn, sel):
 
 
 def prefix_stmts(fn, spec):
-    stop = spec["stop_at"]
-    out = []
+    """Top-level statements from the first one matching spec["start_at"] (default: the first) up to,
+    excluding, the first later one matching spec["stop_at"]."""
+    def hit(s, pat):
+        return _unp(s).startswith(pat[5:]) if pat.startswith("text:") else type(s).__name__ == pat
+    stop, start = spec["stop_at"], spec.get("start_at")
+    out, started = [], start is None
     for s in fn.body:
-        hit = (_unp(s).startswith(stop[5:]) if stop.startswith("text:") else type(s).__name__ == stop)
-        if hit:
+        if not started:
+            if hit(s, start):
+                started = True
+            else:
+                continue
+        elif hit(s, stop):
             return out, s
         out.append(s)
-    raise Unsupported("prefix mode: no top-level statement matches stop_at=%r" % stop)
+    raise Unsupported("prefix mode: no top-level statements match start_at=%r / stop_at=%r" % (start, stop))
 
 
 def check_globals(tree, fn, used, qualname):
@@ -806,7 +929,8 @@ def locate(path, qualname, spec):
         return mode, fn, fn.body, (fn.lineno, fn.end_lineno), src
     if mode == "prefix":
         stmts, stop = prefix_stmts(fn, spec)
-        return mode, fn, stmts, (fn.lineno, stop.lineno - 1), src
+        first = stmts[0].lineno if (spec.get("start_at") and stmts) else fn.lineno
+        return mode, fn, stmts, (first, stop.lineno - 1), src
     if mode == "expr":
         e, where = select_expr(fn, spec["select"])
         return mode, fn, e, (where.lineno, where.end_lineno), src
